@@ -39,6 +39,9 @@ ZOPE_PROJECTS = [
     {"zp/__init__.py": "from zp._i import IFoo\n__all__ = ['IFoo']\n", "zp/_i.py": "from zope.interface import Interface\nclass IFoo(Interface):\n    pass\n",
      "zp/a.py": "from zope.interface import implementer\nfrom zp._i import IFoo\n@implementer(IFoo)\nclass A:\n    pass\n",
      "zp/b.py": "from zope.interface import implementer\nimport zp\n@implementer(zp.IFoo)\nclass B:\n    pass\nclass B:\n    'redefined'\n"},
+    # docstring fields naming things that are not variables: a sub-module of the package, a class, a function
+    {"zp/__init__.py": "\"\"\"\nPackage.\n\n@var sub: the sub-module\n@type sub: module\n@var Thing: a class\n@var helper: a function\n@var real: a variable\n\"\"\"\nreal = 1\nclass Thing:\n    def m(self): pass\ndef helper(): pass\n",
+     "zp/sub.py": "\"\"\"own doc of sub\"\"\"\nclass K:\n    \"\"\"\n    @ivar meth: not a variable\n    @cvar Inner: a nested class\n    \"\"\"\n    def meth(self): pass\n    class Inner: pass\nK.__doc__ = \"\"\"\n@ivar meth: again\n@cvar Inner: again\n\"\"\"\n"},
     # an interface moved by a re-export, named through its ORIGINAL location by several implementers (and two interfaces at once)
     {"zp/__init__.py": "from zp._iface import IPlugin, IOther\n__all__ = ['IPlugin', 'IOther']\n",
      "zp/_iface.py": "from zope.interface import Interface\nclass IPlugin(Interface):\n    def run(): 'doc'\nclass IOther(Interface):\n    pass\n",
